@@ -182,7 +182,9 @@ func cases(r *ev.Run) []gcase {
 	bad := &nodev1.GovernanceMessage{Payload: &nodev1.GovernanceMessage_GuardianSet{GuardianSet: &nodev1.GuardianSetUpgrade{Guardians: []*nodev1.GuardianSetUpgrade_Guardian{{Pubkey: "0x1234"}}}}}
 	out = append(out, gcase{Kind: "GuardianSet", Desc: "pubkey that is not an address", msg: bad, reject: true})
 	// ---- token bridge: register chain (chain 33..35, emitter 35..67, size 67)
-	modules := []string{"TokenBridge", "", "Core", strings.Repeat("M", 32), strings.Repeat("M", 33), strings.Repeat("M", 1024)}
+	modules := []string{"TokenBridge", "", "Core", strings.Repeat("M", 32), strings.Repeat("M", 33), strings.Repeat("M", 1024),
+		// names whose length in CHARACTERS and in BYTES fall on different sides of 32 (multi-byte UTF-8), and invalid UTF-8
+		strings.Repeat("é", 16), strings.Repeat("é", 17), "TokenBridge" + strings.Repeat("é", 10), "TokenBridge" + strings.Repeat("é", 11), strings.Repeat("橋", 10) + "ab", strings.Repeat("橋", 11), strings.Repeat("\xff", 32), strings.Repeat("\xff", 33)}
 	for _, mod := range modules {
 		for _, ch := range []uint32{0, 2, 65535, 65536, 65538, 1<<32 - 1} {
 			for _, e := range hexAlts([]int{0, 31, 32, 33}, 0x50) {
@@ -511,7 +513,7 @@ func main() {
 	r.Sample(caseRec{Kind: cs[0].Kind, Desc: cs[0].Desc, Env: envs[0]})
 	r.Sample(caseRec{Kind: "DestroyUnexecutedSequenceContracts", Desc: "emitter chain 65538, 65536 sequences", Env: envs[0]})
 	r.Sample(caseRec{Kind: "BridgeRegisterChain", Desc: "module 33 bytes, chain 2, emitter 64 hex chars", Env: envs[2]})
-	r.Set("rule", "per kind the full product of the field alphabets (hex fields: 0/31/32/33-byte, odd-length, non-hex, 0x-prefixed; chain ids 0,2,65535,65536,65538,2^32-1; consistency 0,1,255,256,257,65536,2^32-1; list / address lengths 0,1,2,65535,65536,65537; modules '', Core, TokenBridge, 32, 33, 1024 bytes; guardians 0,1,2,19,20,255,256, duplicate, bad hex); 6 request envelopes (target chain, nonce, sequence, timestamp, set index at their boundaries) on the plain valid requests; every case also inside a two-message request before and after a plain valid message of the same kind. Distinct by construction; all non-trivial.")
+	r.Set("rule", "per kind the full product of the field alphabets (hex fields: 0/31/32/33-byte, odd-length, non-hex, 0x-prefixed; chain ids 0,2,65535,65536,65538,2^32-1; consistency 0,1,255,256,257,65536,2^32-1; list / address lengths 0,1,2,65535,65536,65537; modules '', Core, TokenBridge, 32, 33, 1024 bytes, multi-byte names of 32 / 33 / 34 bytes in 16 / 17 / 22 / 12 / 11 characters, 32 and 33 invalid-UTF-8 bytes; guardians 0,1,2,19,20,255,256, duplicate, bad hex); 6 request envelopes (target chain, nonce, sequence, timestamp, set index at their boundaries) on the plain valid requests; every case also inside a two-message request before and after a plain valid message of the same kind. Distinct by construction; all non-trivial.")
 	r.Assume("semantic contract assertions (length > 0, remoteChainId != localChainId, isAssetAddress, guardian count above the node's own limit) are outside the property: rejection or the exact payload are both accepted there")
 	r.Assume("ContractUpgrade / BridgeUpgradeContract payloads are free-form for the node; only module, action and byte-exact embedding are judged")
 	_ = time.Second
